@@ -31,18 +31,20 @@ theorem storeResponse_run (cfg : Cfg) (reqH : Header) (r : Resp) (bodyOk : Bool)
         | setRefs ok2 h2 => exact ⟨[_, _], _, rfl, rfl, rfl, h2⟩
 
 /-- how a validation can end, as a function of the origin's answer -/
-inductive ValidationOutcome (stored : Entry) (mustValidate : Bool) : OriginAns → Result → Prop where
-  | revalidated (r : Resp) (t1 : Int) (b : Bool) (x : Resp) : r.status = 304 → x.status = stored.resp.status →
+inductive ValidationOutcome (reqH : Header) (stored : Entry) (mustValidate : Bool) : OriginAns → Result → Prop where
+  | revalidated (r : Resp) (t1 : Int) (b : Bool) (x : Resp) : r.status = 304 →
+      clientPreconditionForwarded reqH stored.resp.header = false → x.status = stored.resp.status →
       x.body = stored.resp.body → Header.get x.header sStatusHeader = CacheStatus.revalidated.value →
-      ValidationOutcome stored mustValidate (.resp r t1 b) (.resp x)
+      ValidationOutcome reqH stored mustValidate (.resp r t1 b) (.resp x)
   | staleIfError (a : OriginAns) (x : Resp) : mustValidate = false → x.status = stored.resp.status →
       x.body = stored.resp.body → Header.get x.header sStatusHeader = CacheStatus.stale.value →
       (∀ r t1 b, a = .resp r t1 b → isStaleErrorAllowed r.status = true) →
-      ValidationOutcome stored mustValidate a (.resp x)
-  | origin (r : Resp) (t1 : Int) (b : Bool) (x : Resp) : r.status ≠ 304 → x.status = r.status → x.body = r.body →
+      ValidationOutcome reqH stored mustValidate a (.resp x)
+  | origin (r : Resp) (t1 : Int) (b : Bool) (x : Resp) :
+      (r.status ≠ 304 ∨ clientPreconditionForwarded reqH stored.resp.header = true) → x.status = r.status → x.body = r.body →
       (Header.get x.header sStatusHeader = CacheStatus.miss.value ∨ Header.get x.header sStatusHeader = CacheStatus.bypass.value) →
-      ValidationOutcome stored mustValidate (.resp r t1 b) (.resp x)
-  | error (t1 : Int) : ValidationOutcome stored mustValidate (.err t1) .err
+      ValidationOutcome reqH stored mustValidate (.resp r t1 b) (.resp x)
+  | error (t1 : Int) : ValidationOutcome reqH stored mustValidate (.err t1) .err
 
 /-- HandleValidationResponse (GET): whatever the store answers to the write-back, the result is one of
     the four outcomes, and no further origin call or background work happens -/
@@ -50,7 +52,7 @@ theorem handleValidation_outcome (cfg : Cfg) (reqH : Header) (key : Str) (stored
     (ri : Option Nat) (f : Freshness) (ccReq : Directives) (mv : Bool) (start : Int) (ans : OriginAns)
     (tr : List Step) (res : Result)
     (h : Run (handleValidation cfg sGET reqH key stored refs ri f ccReq mv start ans (fun r => .ret r)) tr res) :
-    ValidationOutcome stored mv ans res ∧ contacted tr = false ∧ spawned tr = false := by
+    ValidationOutcome reqH stored mv ans res ∧ contacted tr = false ∧ spawned tr = false := by
   unfold handleValidation at h
   simp only [] at h
   split at h
@@ -66,11 +68,12 @@ theorem handleValidation_outcome (cfg : Cfg) (reqH : Header) (key : Str) (stored
   · rename_i r t1 bodyOk
     split at h
     · rename_i h304
-      simp only [Bool.and_eq_true, decide_eq_true_eq] at h304
-      have h304 := h304.2
-      have key304 : ValidationOutcome stored mv (.resp r t1 bodyOk)
+      simp only [Bool.and_eq_true, decide_eq_true_eq, Bool.not_eq_true'] at h304
+      have hcp := h304.2
+      have h304 := h304.1.2
+      have key304 : ValidationOutcome reqH stored mv (.resp r t1 bodyOk)
           (.resp (respWith stored.resp (applyStatus .revalidated (updateStoredHeaders (Header.del stored.resp.header sAge) r.header)))) :=
-        .revalidated _ _ _ _ h304 rfl rfl (by simp only [respWith]; exact applyStatus_get _ _)
+        .revalidated _ _ _ _ h304 hcp rfl rfl (by simp only [respWith]; exact applyStatus_get _ _)
       split at h
       · cases h; exact ⟨key304, rfl, rfl⟩
       · cases h with
@@ -82,8 +85,13 @@ theorem handleValidation_outcome (cfg : Cfg) (reqH : Header) (key : Str) (stored
         simp only [Bool.and_eq_true, decide_eq_true_eq, Bool.not_eq_true'] at hc
         refine ⟨.staleIfError _ _ hc.1.2 rfl rfl ?_ (by intro r' t b hh; cases hh; exact hc.1.1.1), rfl, rfl⟩
         unfold serveStale servedHeader; simp only [respWith]; exact applyStatus_get _ _
-      · have hne : r.status ≠ 304 := by
-          intro h'; apply hn304; simp [h']
+      · have hne : r.status ≠ 304 ∨ clientPreconditionForwarded reqH stored.resp.header = true := by
+          by_cases h' : r.status = 304
+          · right
+            cases hcp : clientPreconditionForwarded reqH stored.resp.header with
+            | true => rfl
+            | false => exfalso; apply hn304; simp [h', hcp]
+          · exact Or.inl h'
         split at h
         · obtain ⟨tr1, tr2, htr, hc1, hs1, h2⟩ := storeResponse_run _ _ _ _ _ _ _ _ _ _ _ _ h
           cases h2
@@ -141,7 +149,7 @@ theorem hit_validates (cfg : Cfg) (t0 : Int) (req : Req) (e : Entry) (key : Str)
     (tr : List Step) (r : Result) (h : Run (handleCacheHit cfg t0 req e key refs i) tr r) :
     ((parseCC req.header).onlyIfCached = true ∧ tr = [] ∧ r = .resp make504) ∨
     ∃ ans tr', tr = Step.origin sGET (withConditional req.header e.resp.header) none ans :: tr' ∧
-      ValidationOutcome e (mustValidateOf (transportFreshness cfg.glue t0 e (parseCC req.header) (parseCC e.resp.header)).1 (parseCC req.header) (parseCC e.resp.header))
+      ValidationOutcome req.header e (mustValidateOf (transportFreshness cfg.glue t0 e (parseCC req.header) (parseCC e.resp.header)).1 (parseCC req.header) (parseCC e.resp.header))
         (fixAns cfg ans) r ∧ contacted tr' = false ∧ spawned tr' = false := by
   unfold handleCacheHit at h
   simp only [hmv, ↓reduceIte] at h
@@ -380,8 +388,10 @@ theorem bypass_no_write (cfg : Cfg) (req : Req) (key : Str) (tr : List Step) (r 
 /-- the store writes that may follow the (single) origin call of an exchange -/
 inductive WritesAfter (req : Req) (key : Str) (stored : Option Entry) : OriginAns → List Step → Prop where
   | none (a : OriginAns) : WritesAfter req key stored a []
-  /-- 304: the entry that was read is written back under its id, same status and body -/
+  /-- 304 that answers the stored validators (no precondition of the client's own went upstream in their
+      place): the entry that was read is written back under its id, same status and body -/
   | freshen (r : Resp) (t1 : Int) (b : Bool) (e en : Entry) (ok : Bool) : r.status = 304 → stored = some e →
+      clientPreconditionForwarded req.header e.resp.header = false →
       en.resp.status = e.resp.status → en.resp.body = e.resp.body →
       WritesAfter req key stored (.resp r t1 b) [.setEntry e.id en ok]
   /-- a storable full reply: entry (and, if that succeeded, index) -/
@@ -416,10 +426,10 @@ theorem miss_writes (cfg : Cfg) (t0 : Int) (req : Req) (key : Str) (refs : List 
           exact .store _ _ _ _ hc.1 hc.2 hw
         · cases h1; exact .none _
 
-theorem validation_writes (cfg : Cfg) (req : Req) (reqH : Header) (key : Str) (stored : Entry) (refs : List Ref)
+theorem validation_writes (cfg : Cfg) (req : Req) (key : Str) (stored : Entry) (refs : List Ref)
     (ri : Option Nat) (f : Freshness) (mv : Bool) (start : Int) (ans : OriginAns)
     (tr : List Step) (res : Result)
-    (h : Run (handleValidation cfg sGET reqH key stored refs ri f (parseCC req.header) mv start ans (fun r => .ret r)) tr res) :
+    (h : Run (handleValidation cfg sGET req.header key stored refs ri f (parseCC req.header) mv start ans (fun r => .ret r)) tr res) :
     WritesAfter req key (some stored) ans tr := by
   unfold handleValidation at h
   simp only [] at h
@@ -428,22 +438,22 @@ theorem validation_writes (cfg : Cfg) (req : Req) (reqH : Header) (key : Str) (s
   · rename_i r t1 bodyOk
     split at h
     · rename_i h304
-      simp only [Bool.and_eq_true, decide_eq_true_eq] at h304
+      simp only [Bool.and_eq_true, decide_eq_true_eq, Bool.not_eq_true'] at h304
       split at h
       · cases h; exact .none _
       · cases h with
-        | setEntry ok h1 => cases h1; exact .freshen _ _ _ stored _ _ h304.2 rfl rfl rfl
+        | setEntry ok h1 => cases h1; exact .freshen _ _ _ stored _ _ h304.1.2 rfl h304.2 rfl rfl
     · rename_i hn304
       split at h
       · cases h; exact .none _
-      · have hne : r.status ≠ 304 := by intro h'; apply hn304; simp [h']
-        split at h
+      · split at h
         · rename_i hc
           obtain ⟨t1', t2', ht, hw, hk⟩ := storeResponse_trace _ _ _ _ _ _ _ _ _ _ _ _ h
           cases hk
           simp only [List.append_nil] at ht
           subst ht
-          exact .store _ _ _ _ hne hc hw
+          simp only [Bool.and_eq_true, decide_eq_true_eq, ne_eq] at hc
+          exact .store _ _ _ _ hc.1 hc.2 hw
         · cases h; exact .none _
 
 
